@@ -6,7 +6,7 @@
 From Coq Require Import ZArith List Bool.
 From TV Require Import Model.SqlSpecAgg Model.AggImpl Model.AggClass Model.AggJoin
   Proof.AggRefute Proof.AggKeys Proof.AggGroups Proof.AggGroupsMain Proof.AggFold Proof.AggFoldSpec
-  Proof.AggNames Proof.AggQuery3.
+  Proof.AggNames Proof.AggQuery3 Proof.AggFloat Proof.AggExprArg Proof.AggQueryX3.
 Import ListNotations.
 Open Scope Z_scope.
 
@@ -27,6 +27,23 @@ Check agg_fold_spec :
     agg_vals f vs = AVal v ->
     exists s, fold_upd (kind_of_fn f) st0 (fold_input f vs) = SOk s /\ fin (kind_of_fn f) s = v.
 Print Assumptions agg_fold_spec.
+
+(* SUM / AVG over doubles that are exactly summable (multiples of 2^-10 below 2^33, fewer than 1024):
+   every `sum_float += f` is exact (round_q is exact on 53-bit dyadics), the fold ends with the
+   reference SUM (a zero sum is returned as the integer 0: equal as SQL values) and AVG divides it
+   by the count *)
+Theorem agg_fold_float_sum :
+  forall f vs fs v,
+    (f = FSum \/ f = FAvg) -> floats_of (nonnull vs) = Some fs -> fs <> [] ->
+    agg_vals f vs = AVal v ->
+    exists s, fold_upd (kind_of_fn f) st0 (map Some vs) = SOk s /\ val_match (fin (kind_of_fn f) s) v.
+Proof. exact Proof.AggFloat.agg_fold_float_sum. Qed.
+Check agg_fold_float_sum :
+  forall f vs fs v,
+    (f = FSum \/ f = FAvg) -> floats_of (nonnull vs) = Some fs -> fs <> [] ->
+    agg_vals f vs = AVal v ->
+    exists s, fold_upd (kind_of_fn f) st0 (map Some vs) = SOk s /\ val_match (fin (kind_of_fn f) s) v.
+Print Assumptions agg_fold_float_sum.
 
 (* where the reference demands an error (the exact integer SUM does not fit in i64) the fold ends in
    the error `integer overflow in SUM` *)
@@ -55,6 +72,38 @@ Check query_correct_plain_columns :
     forallb is_plain (q_keys q) = true -> forallb plain_agg (q_aggs q) = true -> q_int_sums q t = true ->
     spec_query q t = SRows rs -> model_query q t = MRows rs.
 Print Assumptions query_correct_plain_columns.
+
+(* an aggregate over an EXPRESSION (columns, integer literals, + - * ): the argument is evaluated row by
+   row and the fold over all rows of a group finalizes to the reference aggregate (the class repaired
+   by 52ebd35, now for all inputs) *)
+Theorem agg_over_expression_correct :
+  forall a rows v,
+    (a_fn a = FCountStar \/ frag (a_arg a) = true) -> agg_spec a rows = AVal v ->
+    (forall vs, map_opt (eval (a_arg a)) rows = Some vs -> int_sums (a_fn a) vs = true) ->
+    exists s, run_agg (mfn_of a) st0 rows = SOk s /\ finalize (mfn_of a) s = v.
+Proof. exact Proof.AggExprArg.agg_run_spec_expr. Qed.
+Check agg_over_expression_correct :
+  forall a rows v,
+    (a_fn a = FCountStar \/ frag (a_arg a) = true) -> agg_spec a rows = AVal v ->
+    (forall vs, map_opt (eval (a_arg a)) rows = Some vs -> int_sums (a_fn a) vs = true) ->
+    exists s, run_agg (mfn_of a) st0 rows = SOk s /\ finalize (mfn_of a) s = v.
+Print Assumptions agg_over_expression_correct.
+
+(* query_correct_plain_columns generalised to aggregates over expressions: plain-column keys, any
+   aggregates over the expression fragment, HAVING mentioning only plain aggregates (and COUNT( * ) only
+   when no COUNT over an expression is computed: the two share the name `count`, open class 9) *)
+Theorem query_correct_expression_arguments :
+  forall q t rs,
+    forallb is_plain (q_keys q) = true -> forallb ok_agg (q_aggs q) = true -> having_names_ok q ->
+    q_int_sums q t = true ->
+    spec_query q t = SRows rs -> model_query q t = MRows rs.
+Proof. exact Proof.AggQueryX3.query_correct_expression_arguments. Qed.
+Check query_correct_expression_arguments :
+  forall q t rs,
+    forallb is_plain (q_keys q) = true -> forallb ok_agg (q_aggs q) = true -> having_names_ok q ->
+    q_int_sums q t = true ->
+    spec_query q t = SRows rs -> model_query q t = MRows rs.
+Print Assumptions query_correct_expression_arguments.
 
 (* GROUP BY over plain columns (each key column of one kind): whenever HashAggregate gets through,
    its table IS the reference grouping -- one entry per distinct key in order of first occurrence
@@ -199,3 +248,27 @@ Example query_correct_nonvacuous :
   forallb is_plain (q_keys q) = true /\ forallb plain_agg (q_aggs q) = true /\ q_int_sums q t = true /\
   spec_query q t = SRows [[VNull; VInt 2; VInt 12; VText [97]]; [VInt 1; VInt 0; VNull; VText [98]]].
 Proof. cbv zeta. repeat split; vm_compute; reflexivity. Qed.
+
+(* non-vacuity of agg_fold_float_sum: 1.5 + NULL + 2.25 + (-0.75) = 3.0, and a sum that cancels *)
+Example agg_fold_float_nonvacuous :
+  (let vs := [VFloat 4609434218613702656; VNull; VFloat 4612248968380809216; VFloat 13828302655841107968] in
+   floats_of (nonnull vs) = Some [4609434218613702656; 4612248968380809216; 13828302655841107968] /\
+   agg_vals FSum vs = AVal (VFloat 4613937818241073152) /\ exists a, agg_vals FAvg vs = AVal (VFloat a)) /\
+  (let vs := [VFloat 4609434218613702656; VFloat 13832806255468478464] in
+   agg_vals FSum vs = AVal (VFloat 0)).
+Proof. cbv zeta. repeat split; try (vm_compute; reflexivity). eexists; vm_compute; reflexivity. Qed.
+
+(* non-vacuity of query_correct_expression_arguments: SUM(c2 * 2 + 1) and COUNT(c2 + 0) over NULLs *)
+Example query_correct_expr_nonvacuous :
+  let t := [[VInt 1; VNull; VInt 5]; [VInt 2; VNull; VNull]; [VInt 3; VInt 1; VInt 2]] in
+  let q := mkQ None [ECol 1]
+               [mkAgg FSum (EArith AAdd (EArith AMul (ECol 2) (ELit (VInt 2))) (ELit (VInt 1)));
+                mkAgg FCount (EArith AAdd (ECol 2) (ELit (VInt 0))); mkAgg FMax (ECol 0)]
+               [0%nat; 1%nat; 2%nat] (Some (ECmp CGt (ECol 3) (ELit (VInt 0)))) in
+  forallb is_plain (q_keys q) = true /\ forallb ok_agg (q_aggs q) = true /\ q_int_sums q t = true /\
+  spec_query q t = SRows [[VNull; VInt 11; VInt 1]; [VInt 1; VInt 5; VInt 1]] /\ having_names_ok q.
+Proof.
+  cbv zeta. split; [reflexivity|]. split; [reflexivity|]. split; [vm_compute; reflexivity|]. split; [vm_compute; reflexivity|].
+  unfold having_names_ok. intros h i a Hh Hi _ Na. cbn in Hh. injection Hh as <-. cbn in Hi. destruct Hi as [<-|[]].
+  cbn in Na. injection Na as <-. split; [reflexivity|discriminate].
+Qed.
